@@ -39,7 +39,9 @@ class Scenario:
 
 class Contract:
     def __init__(self, func, serves, scenarios, raises=(), returns=None, updates=None, ensures=(), exc_ensures=(),
-                 loops=None, policy=None, requires=(), note="", native=None, ghost_params=()):
+                 loops=None, policy=None, requires=(), note="", native=None, ghost_params=(), fresh_result=None, decreases=None):
+        self.decreases = decreases
+        self.fresh_result = fresh_result  # 'str'|'int'|'real': non-functional contract, callers get a fresh value + ensures
         self.func = func
         self.serves = list(serves)
         self.scenarios = list(scenarios)
@@ -54,6 +56,27 @@ class Contract:
         self.note = note
         self.native = native  # how to call the real function in a replay
         self.ghost_params = ghost_params
+
+
+class Lemma:
+    """Stand-alone obligations over spec functions (no code): make(ex) yields (name, goal)."""
+
+    def __init__(self, name, serves, make):
+        self.name = name
+        self.serves = list(serves)
+        self.make = make
+
+
+def verify_lemma(world, lem, budget_ms=2000):
+    path = Path([], budget_ms)
+    ex = Exec(world, path)
+    r = PathResult()
+    r.outcome = "lemma"
+    for name, goal in lem.make(ex):
+        path.check(f"{lem.name}/{name}", goal, {"kind": "lemma", "text": name})
+    r.vcs = path.vcs
+    r.trace = []
+    return [r]
 
 
 def register(world: World, ct: Contract):
@@ -197,19 +220,37 @@ def cut_loop(ex: Exec, node, fr, spec: LoopSpec, n, item_at):
     mi = fr.func.mi
     kname = spec.k
 
+    split_state = {}
+
     def check_all(kval, stage):
         env = dict(fr.env)
         env[kname] = kval
         for gname, gexpr in spec.ghost_defs.items():
             env[gname] = eval_clause(ex, gexpr, env, mi)
+        extra = {}
+        if stage == "preserve" and "split" in split_state:
+            extra["split"] = split_state["split"]
         for idx, inv in enumerate(spec.invariants):
-            p.check(f"{where}/inv[{idx}]-{stage}", clause_truth(ex, inv, env, mi), {"kind": "invariant", "text": inv, "stage": stage})
+            p.check(f"{where}/inv[{idx}]-{stage}", clause_truth(ex, inv, env, mi),
+                    dict({"kind": "invariant", "text": inv, "stage": stage}, **extra))
         for var, dexpr in spec.defs.items():
             cur = eval_clause(ex, var, env, mi)
             want = eval_clause(ex, dexpr, env, mi)
             p.check(f"{where}/def[{var}]-{stage}", zbool(unwrap_bool(value_equal(ex, cur, want))),
-                    {"kind": "invariant", "text": f"{var} == {dexpr}", "stage": stage})
+                    dict({"kind": "invariant", "text": f"{var} == {dexpr}", "stage": stage}, **extra))
 
+    # values at loop entry, visible to the invariants as pre<ordinal>_<name>
+    ordinal = fr.loop_ordinal.get(id(node))
+    for var in assigned_names(node.body):
+        if var in fr.env:
+            cur = fr.env[var]
+            if isinstance(cur, Sym) and cur.ty == "str" and not z3.is_const(cur.t):
+                # name complex string terms: keeps the string reasoning of the invariants shallow
+                c = p.fresh(f"pre{ordinal}_{var}", "str")
+                p.assume(c.t == cur.t)
+                fr.env[var] = c
+                cur = c
+            fr.env[f"pre{ordinal}_{var}"] = cur
     # 1. establishment
     check_all(0, "entry")
     # 2. arbitrary iteration
@@ -251,6 +292,13 @@ def cut_loop(ex: Exec, node, fr, spec: LoopSpec, n, item_at):
     if choice == 0:
         p.assume(kk.t < nt)
         ex.assign(node.target, item_at(kk), fr)
+        if spec.split is not None:
+            sv = eval_clause(ex, spec.split[0], fr.env, mi)
+            split_state["split"] = (term(sv, "int"), list(spec.split[1]))
+        for idx, a in enumerate(spec.asserts):
+            g = clause_truth(ex, a, fr.env, mi)
+            p.check(f"{where}/assert[{idx}]", g, {"kind": "invariant", "text": a, "stage": "body-assert"})
+            p.assume(g)
         try:
             ex.exec_block(node.body, fr)
         except ContinueEx:
@@ -260,6 +308,10 @@ def cut_loop(ex: Exec, node, fr, spec: LoopSpec, n, item_at):
         check_all(ops.mk_num(kk.t + 1, "int"), "preserve")
         raise PathEnd("loop body verified")
     p.assume(kk.t == nt)
+    for idx, a in enumerate(spec.exit_asserts):
+        g = clause_truth(ex, a, fr.env, mi)
+        p.check(f"{where}/exit-assert[{idx}]", g, {"kind": "invariant", "text": a, "stage": "exit-assert"})
+        p.assume(g)
     if node.orelse:
         ex.exec_block(node.orelse, fr)
 
@@ -289,6 +341,10 @@ def apply_contract(ex: Exec, ct: Contract, fv: FuncV, env):
             cenv["old_" + k] = snapshot(v)
     for idx, req in enumerate(ct.requires):
         ex.p.check(f"call[{ct.func}]/requires[{idx}]", clause_truth(ex, req, cenv, mi), {"kind": "callsite-pre", "text": req})
+    if ct.decreases is not None and getattr(ex, "verifying", None) == ct.func:
+        m = eval_clause(ex, ct.decreases, cenv, mi)
+        ex.p.check(f"call[{ct.func}]/decreases", z3.And(term(m, "int") >= 0, term(m, "int") < term(ex.measure_entry, "int")),
+                   {"kind": "termination", "text": f"recursive call decreases {ct.decreases}"})
     for exc, cond in ct.raises:
         c = eval_clause(ex, cond, cenv, mi)
         t = ex.truth(c)
@@ -304,6 +360,12 @@ def apply_contract(ex: Exec, ct: Contract, fv: FuncV, env):
     ex.events.append(("call", ct.func))
     if ct.returns is not None:
         return eval_clause(ex, ct.returns, cenv, mi)
+    if ct.fresh_result is not None:
+        res = ex.p.fresh("res_" + ct.func.split(".")[-1], ct.fresh_result)
+        cenv["result"] = res
+        for cid, expr, props in ct.ensures:
+            ex.p.assume(clause_truth(ex, expr, cenv, mi))
+        return res
     return None
 
 
@@ -318,7 +380,7 @@ class PathResult:
         self.trace = []
 
 
-def verify_scenario(world: World, ct: Contract, sc: Scenario, budget_ms=2000, max_paths=4000):
+def verify_scenario(world: World, ct: Contract, sc: Scenario, budget_ms=400, max_paths=4000):
     """Symbolically execute the real body under one scenario; returns list[PathResult]."""
     fv = world.funcv(ct.func)
     results = []
@@ -340,7 +402,7 @@ def verify_scenario(world: World, ct: Contract, sc: Scenario, budget_ms=2000, ma
         r = PathResult()
         try:
             env = sc.make(ex)
-            ghost = {k: env.pop(k) for k in list(env) if k.startswith("ghost_")}
+            ghost = {k: env[k] for k in list(env) if k.startswith("ghost_")}  # ghosts stay visible to loop invariants
             cenv = dict(env)
             cenv.update(ghost)
             for k, v in list(env.items()):
@@ -352,6 +414,9 @@ def verify_scenario(world: World, ct: Contract, sc: Scenario, budget_ms=2000, ma
                 path.assume(clause_truth(ex, req, cenv, fv.mi))
             if not path.feasible():
                 raise PathEnd("requires unsatisfiable")
+            ex.verifying = ct.func
+            if ct.decreases is not None:
+                ex.measure_entry = eval_clause(ex, ct.decreases, cenv, fv.mi)
             try:
                 result = ex.run_body(fv, dict(env))
                 r.outcome = "return"
